@@ -1,0 +1,21 @@
+//go:build verif
+
+// Contracts for the verif build tag (read by /verif/govc; comment-only).
+package util
+
+// BitSet at the Int level: bit16 / popcount16 are ghost functions whose bit-level
+// meaning (bits | 1<<idx, OnesCount16) is proved over 16-bit vectors in
+// /verif/lemmas/bitset16.smt2; the identification itself is trusted.
+
+//@ func BitSet.Set
+//@ trusted
+//@ requires 0 <= idx && idx < 16
+//@ modifies bs.bits
+//@ ensures bit16(bs.bits, idx) && forall j int :: 0 <= j && j < 16 && j != idx ==> (bit16(bs.bits, j) <==> bit16(old(bs.bits), j))
+//@ ensures popcount16(bs.bits) == popcount16(old(bs.bits)) + ite(bit16(old(bs.bits), idx), 0, 1)
+//@ note panics for idx outside 0..15: the precondition is an obligation at every call site
+
+//@ func BitSet.Count
+//@ trusted
+//@ pure
+//@ ensures result == popcount16(bs.bits) && 0 <= result && result <= 16
